@@ -31,7 +31,9 @@ def errkind(exc):
 def main():
     prop = sys.argv[1]
     import msmhelper
-    assert msmhelper.__file__.startswith('/repo/src'), msmhelper.__file__
+    import os
+    root = os.path.join(os.environ.get('VERIF_REPO', '/repo'), 'src')
+    assert msmhelper.__file__.startswith(root), msmhelper.__file__
     mod = importlib.import_module('props.' + prop.lower())
     if hasattr(mod, 'impl_init'):
         mod.impl_init()
